@@ -273,6 +273,13 @@ func genFaults(counts map[bool]map[string]int, rng *rand.Rand) []*caseSpec {
 		for _, e := range []int{errResetWrapped, errResetPlain} {
 			add([]fault{{"Open", 1, e}}, false)
 			add([]fault{{"Close", 1, e}}, true)
+			// the underlying Close fails after it has torn the stream down
+			// (the read loop wakes up and takes the close token first)
+			add([]fault{{"CloseTeardown", 1, e}}, true)
+			for _, p := range pols[:3] { // with an IsOpen between the failed and the finishing Close, then reopen
+				ops := []op{{K: "O"}, {K: "R"}, {K: "C"}, {K: "I"}, {K: "C"}, {K: "O"}, {K: "R"}, {K: "I"}}
+				out = append(out, &caseSpec{Kind: "fault", Ops: ops, Pol: p, Faults: []fault{{"CloseTeardown", 1, e}}, Chunked: chunked})
+			}
 		}
 	}
 	return out
